@@ -29,6 +29,10 @@ pub struct C01;
 const WITNESS: &str = "\u{1}W:";
 
 fn gen_config(r: &mut Rng, g: &RawGen) -> AdminOp {
+    if r.chance(1, 10) {
+        // a unit family: a new one, or the name of a built-in family (rejected - and nothing may change)
+        return AdminOp::AddType { name: r.pick(&["metric-length", "famq", "metric-weight", "famq", "memory"]).to_string() };
+    }
     match r.below(8) {
         0 => { let p = *r.pick(&[",", "."]); AdminOp::SetDecimalSep { s: p.into() } }
         1 => { let p = *r.pick(&[".", ",", ""]); AdminOp::SetThousandSep { s: p.into() } }
